@@ -244,11 +244,11 @@ def _comments_transformer(ctx: Ctx, e) -> None:
 
     C1 = SStr(["# ", Atom("COMMENT_a", excludes=frozenset("\n"))])
     cases = [
-        ("attr", "_save_attr_comments", lambda: HDict({"__position__": HDict(), "__tokens__": [], "name": SStr.atom("v")}), [C1], lambda d: d.get("__comments__") == [C1]),
-        ("attr without comment", "_save_attr_comments", lambda: HDict({"__position__": HDict(), "name": SStr.atom("v")}), None, lambda d: d.get("__comments__") == []),
-        ("projection", "_save_projection_comments", lambda: HDict({"__position__": HDict(), "projection": [SStr.atom("p"), SStr.atom("p2")]}), [C1], lambda d: d.get("__comments__") == [C1]),
-        ("composite", "_save_composite_comments", lambda: layout.cdict([("__type__", "layer"), ("__comments__", HDict({"name": [C1]})), ("name", SStr.atom("v"))]), [C1], lambda d: d.get("__comments__", {}).get("__type__") == [C1] and d["__comments__"].get("name") == [C1]),
-        ("key/value block without comments dict", "_save_composite_comments", lambda: layout.cdict([("__type__", "validation"), ("akey", SStr.atom("v"))]), [C1], lambda d: d.get("__comments__", {}).get("__type__") == [C1]),
+        ("attr", "attr", lambda: HDict({"__position__": HDict(), "__tokens__": [], "name": SStr.atom("v")}), [C1], lambda d: d.get("__comments__") == [C1]),
+        ("attr without comment", "attr", lambda: HDict({"__position__": HDict(), "name": SStr.atom("v")}), None, lambda d: d.get("__comments__") == []),
+        ("projection", "projection", lambda: HDict({"__position__": HDict(), "projection": [SStr.atom("p"), SStr.atom("p2")]}), [C1], lambda d: d.get("__comments__") == [C1]),
+        ("composite", "composite", lambda: layout.cdict([("__type__", "layer"), ("__comments__", HDict({"name": [C1]})), ("name", SStr.atom("v"))]), [C1], lambda d: d.get("__comments__", {}).get("__type__") == [C1] and d["__comments__"].get("name") == [C1]),
+        ("key/value block without comments dict", "composite", lambda: layout.cdict([("__type__", "validation"), ("akey", SStr.atom("v"))]), [C1], lambda d: d.get("__comments__", {}).get("__type__") == [C1]),
     ]
     for name, meth, mk_main, comments, expect in cases:
         tree = SObj("Tree", {"data": name.split(" ")[0], "children": [], "meta": meta(comments), "_main_result": mk_main})
